@@ -60,7 +60,11 @@ func (ex *Exec) canary(st *State, label string) {
 	if ex.canaryN == nil {
 		ex.canaryN = map[string]int{}
 	}
-	if ex.canaryN[label] >= 2 {
+	limit := 2
+	if strings.HasPrefix(label, "return@") {
+		limit = 80 // the first paths that reach a return statement may be infeasible ones (both append modes, say)
+	}
+	if ex.canaryN[label] >= limit {
 		return
 	}
 	ex.canaryN[label]++
@@ -765,6 +769,20 @@ func (ex *Exec) Verify() {
 			return
 		}
 		ex.canary(st, "return")
+		// and one per return statement: a return that no path can reach under the contract's assumptions (while the
+		// function has it in its source) means the clauses checked there hold vacuously
+		if ex.retSite != "" {
+			dead := false
+			for _, d := range fc.DeadReturns {
+				if d == ex.retSite {
+					dead = true
+					ex.assumed["return statement '"+d+"' of "+fc.Key+" is declared unreachable under the contracts of its callees (an error branch those contracts exclude); no reachability canary there"] = true
+				}
+			}
+			if !dead {
+				ex.canary(st, "return@"+ex.retSite)
+			}
+		}
 		renv := *env
 		renv.bound = env.bound
 		renv.vars = make(map[string]EV, len(env.vars)+4)
@@ -931,6 +949,31 @@ func (ex *Exec) allocateFor(st *State, res Val, t types.Type) {
 		for _, g := range ex.ctx.specs.Ghosts {
 			if sort, ok := logicalSort(g.Sort); ok && (g.Type == typeKey(t) || g.Type == "io.Writer") {
 				upd("ghost:"+g.Type+"."+g.Name, ArrSort(sort), iv.Ref, g.Sort == "ref")
+			}
+		}
+		// a fresh value of a repository interface type is a fresh object of one of the implementing pointer
+		// types: its fields are unknown (in particular they may hold references created since function entry --
+		// without this the well-typed-heap axiom of the initial heap would bound them, and a postcondition such as
+		// "the route stores the broker list it was given" would contradict it)
+		if isRepoType(t) {
+			for _, impl := range ex.ctx.implementers(u) {
+				pt, ok := impl.(*types.Pointer)
+				if !ok {
+					continue
+				}
+				stt := structOf(pt.Elem())
+				if stt == nil || !isRepoType(pt.Elem()) {
+					continue
+				}
+				for i := 0; i < stt.NumFields(); i++ {
+					ft := stt.Field(i).Type()
+					if k := kindOf(ft); k == KStruct || k == KArray {
+						continue
+					}
+					for _, c := range leafComps(ft) {
+						upd(typeKey(pt.Elem())+"."+stt.Field(i).Name()+c.Suffix, ArrSort(c.Sort), iv.Ref, isRefComp(ft, c))
+					}
+				}
 			}
 		}
 	}
